@@ -31,6 +31,11 @@ def run(chk, replay=None):
             buf = datafmt.GEN[fmt](rng)
             events.append(datafmt.unmarshal_event(fmt, buf, dec))
             ev.case((fmt, bytes(buf)), nontrivial=any(buf))
+    # a READ ELEMENT STATUS page longer than 65535 bytes (three-byte counts really needed)
+    for _ in range(1 if chk.quick else 3):
+        buf = datafmt.big_element_status(rng)
+        events.append(datafmt.unmarshal_event("ReadElementStatus", buf))
+        ev.case(("ReadElementStatus", "big", len(buf)))
     # the other observation point: ONE command object per format, its data-in buffer re-filled in place by the
     # "transport" (as SCSIDevice / ISCSIDevice do) and cmd.unmarshall() called again: cmd.result is the new answer
     from ..core import cmds
@@ -66,7 +71,7 @@ def run(chk, replay=None):
     from ..core.values import flatten
     K = mod("pyscsi.pyscsi.scsi_cdb_readcd").ReadCd
     for est in (1, 2, 3, 4):
-        for mcsb in (0x1F, 0x02, 0x04):
+        for mcsb in (0x1F, 0x02, 0x04) + ((8, 10, 12, 14, 30, 15, 3, 11, 28) if est == 4 else ()):
             for c2ei in (0, 1, 2):
                 for scsb in (0, 2, 4):
                     for tl in ((1, 2) if chk.quick else (1, 2, 3)):
